@@ -26,6 +26,24 @@ def _overlay_span(fn, origin):
     return name, lo, hi
 
 
+_BASE_TEXT = {}
+
+
+def _new_function(fn, origin):
+    """True if no `fn <name>` exists in the base copy of the /repo file this function's header comes from"""
+    for q in range(fn.start - 1, fn.end):
+        o = origin[q]
+        if o[0] == 'C':
+            rel = o[1]
+            if rel not in _BASE_TEXT:
+                try:
+                    _BASE_TEXT[rel] = open(os.path.join(VERIF, 'contracts', 'base', rel)).read()
+                except OSError:
+                    _BASE_TEXT[rel] = ''
+            return re.search(r'\bfn %s\b' % re.escape(fn.short), _BASE_TEXT[rel]) is None
+    return False
+
+
 def analyse_unit(r, tops, allowed_assumptions, support=None):
     """-> dict(obligations=[..], failures=[..], inconclusive=[..], assumptions=[..])"""
     out = {'unit': r['unit'], 'obligations': [], 'failures': [], 'inconclusive': [], 'assumptions': [], 'functions_under_contract': []}
@@ -89,7 +107,13 @@ def analyse_unit(r, tops, allowed_assumptions, support=None):
                'sites': e['sites'], 'rendered': e['rendered']}
         ovname, lo, hi = _overlay_span(f, r['origin'])
         lost_here = [x for x in all_lost if lo is not None and lo <= x[1] <= hi]
-        if k == 'semantic' and f.mode == 'exec' and f.code_lines > 0 and not lost_here:
+        new_fn = f.mode == 'exec' and f.code_lines > 0 and lo is None and _new_function(f, r['origin'])
+        if k == 'semantic' and new_fn:
+            # a function the overlay has never seen (added by the change, e.g. a helper extracted from an annotated function):
+            # it has no contract, so obligations inside it are undecided, not violated
+            rec['why'] = 'function-without-contract (not present in the text the contracts were written for)'
+            out['inconclusive'].append(rec)
+        elif k == 'semantic' and f.mode == 'exec' and f.code_lines > 0 and not lost_here:
             out['failures'].append(rec)
         elif k == 'compile':
             pass
